@@ -17,6 +17,7 @@ ACTIONS = ["CreateIO", "PreResolve", "Resolve", "PreHandle", "PreHandleEnd", "In
 LINES = {
     "alpha_x": "alpha x", "alpha_x_flag": "alpha x --flag", "beta": "beta", "beta_gamma_y": "beta gamma y",
     "beta_gamma_y_num": "beta gamma y --num 7", "alpha_missing": "alpha", "nosuch": "nosuch", "empty": "",
+    "alpha_beta": "alpha beta", "alpha_help": "alpha help", "gamma_alpha": "beta gamma alpha",  # values that spell command names
 }
 VALUES = {
     "None": None, "False": False, "0": 0, "0.0": 0.0, "empty_str": "", "empty_list": [], "True": True, "-5": -5, "1": 1, "255": 255,
@@ -63,11 +64,15 @@ FIXED_MESSAGES = {
     "TagCloseOpen": "</info> x <error>", "LibraryCloseOpen": "</info> x <error>",
     "CodeMethod": "code is a method", "CodeNone": "code is None", "CodeString": "code is a string", "CodeFloat": "code is a float",
     "CodeBig": "code is 70000", "TagFile": "raised by code whose file name is a closing tag",
+    "NotPython": "raised by code named after a template file", "Undecodable": "raised by code named after a binary file",
+    "SolPlain": "brings a solution", "SolNoDesc": "brings a solution without description", "SolNoTitle": "brings a solution without title",
+    "LongContext": "the last of 1500 failures", "CircularContext": "context chain is a circle",
 }
 FREE_MESSAGE = ("Foreign", "Library", "WithCode", "Chained", "NoSource", "CodeMethod", "CodeNone", "CodeString", "CodeFloat", "CodeBig")
 ALL_KINDS = ["Foreign", "Library", "KeyboardInterrupt", "WithCode", "Chained", "TagOpen", "TagClose", "TagUnbalanced", "TagCloseOpen",
              "MultiLine", "NonAscii", "Backslash", "NoSource", "StrFails", "LibraryTagged", "LibraryBackslash", "LibraryCloseOpen",
-             "CodeMethod", "CodeNone", "CodeString", "CodeFloat", "CodeBig", "TagFile"]
+             "CodeMethod", "CodeNone", "CodeString", "CodeFloat", "CodeBig", "TagFile", "NotPython", "Undecodable",
+             "SolPlain", "SolNoDesc", "SolNoTitle", "LongContext", "CircularContext"]
 SCOPES = ["top", "indent", "increment", "output"]
 
 
@@ -109,6 +114,52 @@ exec("def boom(msg):\\n    raise ValueError(msg)\\n", _ns)
 _tf = {}
 exec(compile("def boom(msg):\\n    raise ValueError(msg)\\n", "</error>", "exec"), _tf)
 
+# code compiled under the name of an existing file that is no Python (a template) / no text at all
+import os as _os
+
+_here = _os.path.dirname(_os.path.abspath(__file__))
+_tmpl = _os.path.join(_here, "page.tmpl")
+with open(_tmpl, "w") as _f:
+    _f.write("<html>\\n  \\"unterminated \'\'\' quote\\n((( {%% block %%}\\nif x:\\n        y\\n    z\\n" + "row\\n" * 40)
+_blob = _os.path.join(_here, "blob.bin")
+with open(_blob, "wb") as _f:
+    _f.write(bytes(range(256)) * 8)
+_np, _ub = {}, {}
+exec(compile("\\n\\ndef boom(msg):\\n    raise ValueError(msg)\\n", _tmpl, "exec"), _np)
+exec(compile("\\n\\ndef boom(msg):\\n    raise ValueError(msg)\\n", _blob, "exec"), _ub)
+
+from crashtest.contracts.base_solution import BaseSolution
+from crashtest.contracts.provides_solution import ProvidesSolution
+
+
+class SolutionError(Exception, ProvidesSolution):
+    """an exception that brings its own solution (crashtest): the report of run() renders it"""
+
+    shape = "plain"
+
+    @property
+    def solution(self):
+        if self.shape == "nodesc":
+            return BaseSolution("Do this")          # description: BaseSolution's default None
+        if self.shape == "notitle":
+            return BaseSolution(None, "Something can be done.")
+        sol = BaseSolution("Check the configuration.", "The value is not accepted.\\nSee the manual")
+        sol.documentation_links.append("https://example.invalid/doc")
+        return sol
+
+
+def _context_chain(n):
+    """n exceptions, each raised (so each has a traceback) while none is being handled, linked through __context__ by
+    assignment - built in a loop, no recursion"""
+    head = None
+    for k in range(n):
+        try:
+            raise ValueError("link %d" % k)
+        except ValueError as e:
+            e.__context__ = head
+            head = e
+    return head
+
 
 def raise_kind(kind, msg):
     if kind == "KeyboardInterrupt":
@@ -130,6 +181,25 @@ def raise_kind(kind, msg):
         _ns["boom"](msg)
     if kind == "TagFile":
         _tf["boom"](msg)
+    if kind == "NotPython":
+        _np["boom"](msg)
+    if kind == "Undecodable":
+        _ub["boom"](msg)
+    if kind in ("SolPlain", "SolNoDesc", "SolNoTitle"):
+        err = SolutionError(msg)
+        err.shape = {"SolPlain": "plain", "SolNoDesc": "nodesc", "SolNoTitle": "notitle"}[kind]
+        raise err
+    if kind == "LongContext":  # a retry loop: every failure raised while the one before is on record
+        err = RuntimeError(msg)
+        err.__context__ = _context_chain(1500)
+        raise err
+    if kind == "CircularContext":  # two errors naming each other as context (legal; the interpreter's printer copes)
+        a, b = _context_chain(1), _context_chain(1)
+        a.__context__, b.__context__ = b, a
+        b.__cause__ = a
+        err = RuntimeError(msg)
+        err.__context__ = a
+        raise err
     raise RuntimeError(msg)
 '''
 _RAISER = {}
@@ -277,7 +347,7 @@ def build_app(slot, formatter=None, session=False):
                 raise_kind("Foreign", slot["msgs"].get("pre"))
 
         cfg.add_event_listener(PRE_RESOLVE, pre, 10)
-    for k in range(3 if session else len(env["listeners"])):
+    def make_listener(k):
         def listener(event, name, dispatcher, _k=k):
             lss = slot["env"]["listeners"]
             if _k >= len(lss):
@@ -292,7 +362,17 @@ def build_app(slot, formatter=None, session=False):
                 event.io.write_line("<b>listener %d" % _k)
                 event.io.set_verbosity(F.VERY_VERBOSE)
 
-        cfg.add_event_listener(PRE_HANDLE, listener, -1 - k)  # in the order of the environment, after the built-in ones
+        return listener
+
+    if session:
+        # positions 1 and 3 now; position 2 is registered AFTER the first run, at the priority position 1 already uses
+        # (same priority: registration order decides, so it still runs second)
+        cfg.add_event_listener(PRE_HANDLE, make_listener(0), -1)
+        cfg.add_event_listener(PRE_HANDLE, make_listener(2), -3)
+        slot["register_late"] = lambda: cfg.add_event_listener(PRE_HANDLE, make_listener(1), -1)
+    else:
+        for k in range(len(env["listeners"])):
+            cfg.add_event_listener(PRE_HANDLE, make_listener(k), -1 - k)  # in the order of the environment, after the built-in ones
     return ConsoleApplication(cfg)
 
 
@@ -349,6 +429,8 @@ def run_case(case, formatter=None, slot=None, app=None):
         else:
             if app[0] is None:
                 app[0] = build_app(slot, formatter, session=True)
+            elif "register_late" in slot:
+                slot.pop("register_late")()  # a listener registered between two runs of the same application
             application = app[0]
     except (T.MachineryError, KeyboardInterrupt):
         raise
@@ -453,6 +535,7 @@ def random_session(rng):
     else drawn anew for every run - failing and succeeding runs in any order"""
     first = random_env(rng)
     first["env"]["catch"] = True
+    first["env"]["listeners"] = first["env"]["listeners"][:1]  # the second listener position is registered after the first run
     rest = []
     for _ in range(rng.choice([2, 2, 3])):
         c = random_env(rng)
@@ -460,6 +543,10 @@ def random_session(rng):
             c["env"][k] = first["env"][k]
         if c["env"]["line"] in ("nosuch", "empty") and c["env"]["app"] == "default":
             c["env"]["line"] = "alpha_x"
+        if len(c["env"]["listeners"]) < 2 and rng.random() < 0.6:  # make the late listener matter: it handles or raises
+            while len(c["env"]["listeners"]) < 2:
+                c["env"]["listeners"].append({"b": "pass", "v": "", "k": ""})
+            c["env"]["listeners"][1] = rng.choice([{"b": "handle", "v": "s3", "k": ""}, {"b": "raise", "v": "", "k": "Foreign"}])
         rest.append(c)
     first["session"] = rest
     return first
@@ -479,7 +566,7 @@ def _run(ctx):
         "Report, Return) for every environment of the product {plain, default application} x catching on/off x 4 verbosities x "
         "7 command lines (two commands, a sub-command, options, a missing argument, an unknown command) x pre-resolve listener "
         "{none, passes, raises} x up to 1/2 pre-handle listeners {pass, handle with 0 / '3' / 300, raise Foreign / tagged "
-        "library error / KeyboardInterrupt} x {at the top of the handler, inside io.indent / io.increment_indent / io.output.indent scopes} x handler configured as object / factory / other method name x terminate_after_run off / on (status via sys.exit) x 27 handler results (incl. Decimal, bytes, 2**70, objects with __int__ / __bool__) + 23 exception kinds (6 of them carrying a `code` that is an int / a method / None / a string / a float / 70000), checking Contained, ZeroIff, Clamped, "
+        "library error / KeyboardInterrupt} x {at the top of the handler, inside io.indent / io.increment_indent / io.output.indent scopes} x handler configured as object / factory / other method name x terminate_after_run off / on (status via sys.exit) x 27 handler results (incl. Decimal, bytes, 2**70, objects with __int__ / __bool__) + 30 exception kinds (incl. code named after a non-Python / binary file, exceptions bringing crashtest solutions without description / title, __context__ chains of 1500 links and circular ones) (6 of them carrying a `code` that is an int / a method / None / a string / a float / 70000), checking Contained, ZeroIff, Clamped, "
         "Reported, Interrupt, CallsOK on every final state and termination under fairness; three sub-products (all outcomes x "
         "verbosities; all listener pairs; all lines x pre-resolve) are emitted and replayed on real applications (status, "
         "escaping exception, handler invocations with command name / arguments / options, whether anything was printed); "
@@ -540,7 +627,7 @@ def _run(ctx):
         raise T.MachineryError("too few environments emitted (%d)" % len(seen))
     ctx.extra["tlc_environments_replayed"] = len(seen)
     ctx.extra["tlc_environments_not_reproduced"] = bad
-    for t in range(1000 if quick else 20000):
+    for t in range(800 if quick else 20000):
         case = random_pair(ctx.rng) if t % 5 == 0 else random_session(ctx.rng) if t % 5 == 1 else random_env(ctx.rng)
         traces.append(run_trace(case))
         cases.append(case)
